@@ -48,6 +48,7 @@ def run(ctx):
     N = int(os.environ.get("VERIF_C08_N", "3" if ctx.quick else "5"))
     count = int(os.environ.get("VERIF_C08_GRAMMARS", "120" if ctx.quick else "1000"))
     gs = reporting_shapes() + gramgen.family(ctx.seed, count)
+    gs += [g for g in gramgen.crossed_slice(ctx.seed, int(os.environ.get("VERIF_C08_CROSS", "60" if ctx.quick else "600"))) if g not in set(gs)]
     starts = {g: ["a", "b"] for g in gs}
     if REPORTING:
         rep = re.sub(r"//[^\n]*", "", REPORTING).strip()
